@@ -35,7 +35,7 @@ class Ep:
             self.handler = kw.pop("handler_cls", secsgem.gem.GemEquipmentHandler)(self.settings, **kw)
             self.protocol = self.handler.protocol
         elif kind == "host":
-            self.handler = secsgem.gem.GemHostHandler(self.settings, **kw)
+            self.handler = kw.pop("handler_cls", secsgem.gem.GemHostHandler)(self.settings, **kw)
             self.protocol = self.handler.protocol
         else:
             raise ValueError(kind)
